@@ -55,6 +55,7 @@ Definition s_value : list N := [118; 97; 108; 117; 101].
 Definition s_stepcounter : list N := [115; 116; 101; 112; 99; 111; 117; 110; 116; 101; 114].
 Definition s_setcounter : list N := [115; 101; 116; 99; 111; 117; 110; 116; 101; 114].
 Definition s_addtocounter : list N := [97; 100; 100; 116; 111; 99; 111; 117; 110; 116; 101; 114].
+Definition s_expandafter : list N := [101; 120; 112; 97; 110; 100; 97; 102; 116; 101; 114].
 Definition s_newcommand : list N := [110; 101; 119; 99; 111; 109; 109; 97; 110; 100].
 Definition s_renewcommand : list N := [114; 101; 110; 101; 119; 99; 111; 109; 109; 97; 110; 100].
 Definition s_text : list N := [35; 116; 101; 120; 116].                        (* "#text" *)
@@ -72,7 +73,7 @@ Definition is_elem (t : tok) : bool := 16 <=? tcat t.
 (* ---- meanings and the context ---- *)
 Inductive prim := PBgroup | PEgroup | PDef (global : bool) | PRelax | PElse | PFi | PIftrue | PIffalse | PIfnum | PIfcase
                 | PNewcommand (renew : bool) | PLet | PIfodd | PNewif
-                | PValue | PStepcounter | PSetcounter | PAddtocounter.
+                | PValue | PStepcounter | PSetcounter | PAddtocounter | PExpandafter.
 Inductive meaning :=
 | MDef (args body : list tok)        (* a class made by Context.newdef *)
 | MNew (nargs : nat) (opt : option (list tok)) (body : list tok)   (* a class made by Context.newcommand *)
@@ -335,6 +336,7 @@ Section Invoke.
     | PStepcounter => elem E_STEPCOUNTER s_stepcounter
     | PSetcounter => elem E_SETCOUNTER s_setcounter
     | PAddtocounter => elem E_ADDTOCOUNTER s_addtocounter
+    | PExpandafter => elem 8 s_expandafter      (* never pushed *)
     end.
 
   (* DefCommand.invoke followed by pushToken(obj) *)
@@ -523,6 +525,36 @@ Section Invoke.
   Definition if_invoke (w : bool) (st : state) : outcome state :=
     match tprocess (WBool w) (input st) with Some i => Ret (set_input st i) | None => Crash 2 end.
 
+  (* expandafter.invoke: nexttok, aftertok = the next two tokens as they are; a control sequence aftertok is instantiated
+     (createElement: Context.__getitem__) and invoked once; the result [nexttok] + (expanded or [aftertok]) is pushed back.
+     Followed here when aftertok is not a control sequence, or is one whose class was made by \def and whose expansion is not
+     empty (an empty expansion is "falsy": the instance itself would be pushed); other classes (primitives, \newcommand
+     classes, unrecognized macros, instances already in the stream) are not followed *)
+  Definition expandafter_invoke (st : state) : outcome state :=
+    match input st with
+    | [] | [_] => Crash 7                       (* next() on the exhausted token iterator *)
+    | t1 :: t2 :: r =>
+      if is_elem t2 then Unsupp 14
+      else if tcat t2 =? CC_ESCAPE then
+        let '(st1, m) := getitem (ttext t2) (set_input st r) in
+        match m with
+        | MDef [] [] => Unsupp 14
+        | MDef [] b => Ret (set_input st1 (t1 :: b ++ r))
+        | MDef a b =>
+            match match_pattern a false false [None] r with
+            | MOk params s' =>
+                match expand_def b false params with
+                | Some [] => Unsupp 14
+                | Some o => Ret (set_input st1 (t1 :: o ++ s'))
+                | None => Crash 1
+                end
+            | MCrash => Crash 1
+            end
+        | _ => Unsupp 14
+        end
+      else Ret st
+    end.
+
   (* obj.invoke(tex) and the push-back of its result, for the class [m] found under the name [nm] *)
   Definition invoke (g : nat) (nm : list N) (m : meaning) (st : state) : outcome state :=
     match m with
@@ -557,6 +589,7 @@ Section Invoke.
         bind (str_arg st) (fun rn => let '(name, st1) := rn in
         bind (int_arg g st1) (fun rz => let '(z, st2) := rz in
         Ret (push_tok (prim_elem PAddtocounter) (set_counter name (counter_value st2 name + z) st2))))
+    | MPrim PExpandafter => expandafter_invoke st
     | MPrim PBgroup => Ret (push_tok (prim_elem PBgroup) (push_frame st))
     | MPrim PEgroup => Ret (push_tok (prim_elem PEgroup) (pop_frame st))
     | MPrim PRelax => Ret (push_tok (prim_elem PRelax) st)
@@ -637,7 +670,8 @@ Definition base_frame : frame :=
     (s_relax, MPrim PRelax); (s_else, MPrim PElse); (s_fi, MPrim PFi);
     (s_iftrue, MPrim PIftrue); (s_iffalse, MPrim PIffalse); (s_ifnum, MPrim PIfnum); (s_ifcase, MPrim PIfcase);
     (s_newcommand, MPrim (PNewcommand false)); (s_renewcommand, MPrim (PNewcommand true)); (s_let, MPrim PLet); (s_ifodd, MPrim PIfodd); (s_newif, MPrim PNewif);
-    (s_value, MPrim PValue); (s_stepcounter, MPrim PStepcounter); (s_setcounter, MPrim PSetcounter); (s_addtocounter, MPrim PAddtocounter) ].
+    (s_value, MPrim PValue); (s_stepcounter, MPrim PStepcounter); (s_setcounter, MPrim PSetcounter); (s_addtocounter, MPrim PAddtocounter);
+    (s_expandafter, MPrim PExpandafter) ].
 Definition init (i : list tok) : state := {| input := i; ups := []; bottom := base_frame |}.
 
 (* ---- wire ---- *)
